@@ -409,9 +409,27 @@ def correspondence(ctx):
         lines.append(line)
         todo.append(fn)
 
+    # ---------------- container width / ADC ceiling for every bit depth 1..64 (beyond 32: both sides must reject)
+    for bits in range(1, 65):
+        def chk(row, bits=bits):
+            w, cap = (int(t) for t in row.split())
+            ctx.case('container', {'bits': bits}, nontrivial=True, tag='reject' if bits > 32 else 'accept')
+            cfg = {'dc': 0.0, 'bias': 0.0, 'fwc': 1e30, 'gain': 1.0, 'bits': bits, 't': 1.0, 'prnu': None, 'dcnu': None}
+            try:
+                out = _expose(cfg, [[0.0, 1.0, 2.0 ** bits * 8]])
+                got = (out.dtype.itemsize * 8, int(out.max()))
+            except ValueError as ex:
+                got = (0, None)
+            except Exception as ex:
+                got = (f'{type(ex).__name__}', None)
+            want = (w, cap if w else None)
+            if got != want:
+                ctx.disagree('container', {'bits': bits}, f'(container bits, saturated DN) = {got}', f'{want}')
+        ask(f'castbits {bits}', chk)
+
     # ---------------- exposure
     shapes = [(3, 4), (1, 5), (4, 1), (2, 6)]
-    reps = ctx.scale(2, 10)
+    reps = ctx.scale(2, 10) * (2 if ctx.widen else 1)
     for bits in range(1, 33):
         for kind in ['unit', 'scaled', 'maps', 'maps-flat'][:ctx.scale(4, 4)]:
             for rep in range(reps):
